@@ -276,7 +276,7 @@ func (p *policy) UpdateResources(container cache.Container) error {
 		// The runtime does not apply an update we refuse: the container keeps
 		// running with its old resources, so give it back the allocation it had.
 		restore := map[string]Grant{container.GetID(): grant}
-		if rerr := p.reinstateGrants(restore); rerr != nil {
+		if rerr := p.reinstateGrants(restore, true); rerr != nil {
 			log.Error("failed to restore previous allocation of %s: %v",
 				container.PrettyName(), rerr)
 		}
